@@ -85,6 +85,25 @@ func init() {
 					}
 				}
 				probe("before-any-callback")
+				// "whatever the browser does": a client that REWRITES the issue time written next to the credential (value|issue time|signature)
+				// to a moment inside the window does not bring an expired credential back
+				if expire > 0 {
+					old := e.issueSessionCookie(e.sessionFor(u, expire+time.Hour))
+					if name, val, ok := strings.Cut(old, "="); ok && !strings.Contains(old, "; ") {
+						if parts := strings.Split(val, "|"); len(parts) == 3 {
+							for _, d := range []time.Duration{0, -time.Minute, time.Minute, -expire / 2} {
+								forged := name + "=" + parts[0] + "|" + fmt.Sprint(time.Now().Add(d).Unix()) + "|" + parts[2]
+								r := e.do(reqSpec{Target: "/app/x", Cookie: forged})
+								c.casen(fmt.Sprintf("c09e|%v|%v|rewritten-stamp|%v", redis, lt, d), fmt.Sprint(len(r.Hits) > 0))
+								c.count("c09:rewritten-issue-time")
+								if len(r.Hits) > 0 {
+									c.violation("C09", "a credential whose lifetime ran out an hour ago is honoured again after the client rewrote the issue time next to it (value and signature untouched): the issue time is not what was signed",
+										map[string]interface{}{"redis": redis, "cookie_expire": expire.String(), "issue_time_written_by_the_client": "now" + d.String()})
+								}
+							}
+						}
+					}
+				}
 				bigU := idpUser{Sub: "user-big", Email: "big@example.com", EmailVerified: true, PreferredUser: strings.Repeat("p", 3000), Groups: []interface{}{strings.Repeat("g", 2500), "x"}}
 				for i := 0; i < 3; i++ {
 					b := newBrowser()
@@ -250,6 +269,72 @@ func init() {
 			}
 			e.close()
 		}
+		// The server-side entry's lifetime across the deployment's life: (a) USING a session (any instance reading it) does not push its
+		// entry's lifetime back up; (b) whatever Redis refuses at the moment of a save or a refresh (a fail-over: the node turns read-only,
+		// commands that set a lifetime fail), no entry is left behind that never expires
+		if e, err := newEnv(c, proxyCfg{Redis: true, CookieExpire: time.Hour, CookieRefresh: 10 * time.Minute, InjectRequest: defaultInject()}); err == nil {
+			b := newBrowser()
+			if lr := e.login(b, u, "/x"); lr.OK {
+				e.mr.FastForward(25 * time.Minute) // (the clock of the entry; the stamp of the credential itself stays as it is)
+				ttlOf := func() (time.Duration, int) {
+					var ttl time.Duration
+					n := 0
+					for _, k := range e.mr.Keys() {
+						if !strings.HasSuffix(k, ".lock") {
+							ttl, n = e.mr.TTL(k), n+1
+						}
+					}
+					return ttl, n
+				}
+				before, n := ttlOf()
+				for i := 0; i < 3; i++ {
+					e.do(reqSpec{Target: "/app/use", Cookie: b.cookieHeader()})
+					e.do(reqSpec{Target: "/oauth2/userinfo", Cookie: b.cookieHeader()})
+				}
+				after, _ := ttlOf()
+				c.casen("c09e|entry-lifetime-on-use", fmt.Sprint(before, after))
+				c.count("c09:entry-lifetime-on-use")
+				if n != 1 {
+					c.violation("HARNESS", fmt.Sprintf("expected one session entry, found %d", n), nil)
+				} else if after > before {
+					c.violation("C09", "reading a session pushed the lifetime of its server-side entry back up: the entry outlives cookie-expire counted from when the session was issued or last refreshed",
+						map[string]interface{}{"ttl_before_the_requests": before.String(), "ttl_after": after.String(), "cookie_expire": "1h", "entry_age": "25m"})
+				}
+			} else {
+				c.violation("HARNESS", "login failed", nil)
+			}
+			e.mr.FlushAll()
+			for _, cmd := range []string{"PEXPIRE", "EXPIRE", "PEXPIREAT", "EXPIREAT", "PERSIST"} {
+				for _, flow := range []string{"login", "refresh"} {
+					e.redisFault = map[string]string{cmd: "always"}
+					if flow == "login" {
+						e.login(newBrowser(), u, "/x")
+					} else {
+						s := e.sessionFor(u, 20*time.Minute)
+						s.RefreshToken = fmt.Sprintf("rt-nottl-%d", time.Now().UnixNano())
+						e.registerRT(s.RefreshToken, u)
+						ck := e.issueSessionCookie(s) // (saved while the fault is armed too)
+						e.do(reqSpec{Target: "/app/x", Cookie: ck})
+					}
+					e.redisFault = nil
+					c.casen("c09e|no-entry-without-lifetime|"+cmd+"|"+flow, "")
+					c.count("c09:lifetime-commands-refused")
+					for _, k := range e.mr.Keys() {
+						if strings.HasSuffix(k, ".lock") {
+							continue
+						}
+						if ttl := e.mr.TTL(k); ttl <= 0 || ttl > time.Hour+5*time.Second {
+							c.violation("C09", "Redis refused the command that sets a lifetime ("+cmd+") during a "+flow+": a server-side entry was left behind with NO lifetime — it never expires",
+								map[string]interface{}{"refused_command": cmd, "flow": flow, "ttl": ttl.String(), "cookie_expire": "1h"})
+						}
+					}
+					e.mr.FlushAll()
+				}
+			}
+			e.close()
+		} else {
+			c.violation("HARNESS", "env: "+err.Error(), nil)
+		}
 		// A refresh RESETS the age: the refreshing request hands out a re-stamped credential with the full lifetime (Max-Age = cookie-expire),
 		// and the server-side entry it re-saves — under the same ticket — is stored with that lifetime again (a TTL, not "forever").
 		// The same after a second login of the same browser.
@@ -391,7 +476,7 @@ func init() {
 			}
 			e.close()
 		}
-		c.close([]string{"c09:probe-before-any-callback", "c09:probe-after-callback-1", "c09:max-age", "c09:not-refreshable", "c09:max-age-split", "c09:expired-during-lock-wait",
+		c.close([]string{"c09:entry-lifetime-on-use", "c09:lifetime-commands-refused", "c09:rewritten-issue-time", "c09:probe-before-any-callback", "c09:probe-after-callback-1", "c09:max-age", "c09:not-refreshable", "c09:max-age-split", "c09:expired-during-lock-wait",
 			"c09:issue-stamp", "c09:presented-again-after-expiry", "c09:refresh-transport-failure", "c09:refresh-restamp", "c09:second-login"})
 	})
 
@@ -460,6 +545,38 @@ func init() {
 				}
 				v2, _ := e.mr.Get(id)
 				rec(v2)
+			}
+			// ... also when the re-save is made by ANOTHER PROCESS — the proxy after a restart, another instance behind the load balancer:
+			// twice over, a freshly started process refreshes this session and re-seals the entry under the same ticket key
+			if i == 0 && lerr == nil {
+				for round := 0; round < 2; round++ {
+					sess.AccessToken = fmt.Sprintf("aged-%d", round)
+					old := time.Now().Add(-2 * time.Hour)
+					sess.CreatedAt = &old
+					sess.RefreshToken = fmt.Sprintf("rt-leak-%d-%d", round, time.Now().UnixNano())
+					e.registerRT(sess.RefreshToken, u)
+					if serr := e.proxy.sessionStore.Save(&respRecorder{h: http.Header{}}, mustReq(e, b.cookieHeader()), sess); serr != nil {
+						c.violation("HARNESS", "re-save failed: "+serr.Error(), nil)
+						break
+					}
+					before, _ := e.mr.Get(id)
+					rec(before)
+					rp, err := e.startReplicaRefresh(time.Second)
+					if err != nil {
+						c.violation("HARNESS", "replica process: "+err.Error(), nil)
+						break
+					}
+					rp.get("/app/x", b.cookieHeader(), nil)
+					rp.stop()
+					after, _ := e.mr.Get(id)
+					c.casen(fmt.Sprintf("leak|other-process|%d", round), fmt.Sprint(after != before))
+					if after == before {
+						c.violation("HARNESS", "the freshly started process did not refresh and re-save the session", nil)
+						break
+					}
+					c.count("c02:entry-nonce-other-process")
+					rec(after)
+				}
 			}
 		}
 		// A ticket cookie this proxy did not issue is not ACTED ON at all: presented on any endpoint (the session loader clears what it
@@ -562,7 +679,7 @@ func init() {
 			}
 			ec.close()
 		}
-		c.close([]string{"c02:ticket", "c02:trivial-key-try", "c02:entry-nonce", "c02:cookie-block-pairs", "c02:forged-ticket"})
+		c.close([]string{"c02:entry-nonce-other-process", "c02:ticket", "c02:trivial-key-try", "c02:entry-nonce", "c02:cookie-block-pairs", "c02:forged-ticket"})
 	})
 
 	registerSuite("saveconc", func(c *suiteCtx) {
